@@ -885,6 +885,21 @@ class Lib:
         j = self.eng.eval(st, node.args[1]).t
         return VU(KSEQ(d.dom, j))
 
+    def sp_isdisk(self, st, node):
+        from .engine import ISDISK
+        v = self.eng.eval(st, node.args[0])
+        return VBool(ISDISK(v.t))
+
+    def sp_nullref(self, st, node):
+        return VRef(z3.IntVal(0), node.args[0].value)
+
+    def sp_dictidx(self, st, node):
+        """position of a key in the iteration order of a dict"""
+        from .models import KIDX
+        d = self.eng.eval(st, node.args[0])
+        k = self.eng.coerce(st, self.eng.eval(st, node.args[1]), "U")
+        return VInt(KIDX(d.dom, k))
+
     def sp_dictlen(self, st, node):
         from .models import KN
         d = self.eng.eval(st, node.args[0])
